@@ -60,6 +60,8 @@ var c12Templates = []c12Tmpl{
 	{"sel-str-cmp", "SELECT id FROM t WHERE s >= ?", []string{"str"}, false},
 	{"sel-null-safe", "SELECT id FROM t WHERE a <=> ?", []string{"any"}, false},
 	{"sel-limit", "SELECT id FROM t ORDER BY id LIMIT ?", []string{"small"}, false},
+	{"sel-limit-offset", "SELECT id FROM t ORDER BY id LIMIT ? OFFSET ?", []string{"small", "small"}, false},
+	{"sel-limit-comma", "SELECT id, a FROM t ORDER BY id LIMIT ?, ?", []string{"small", "small"}, false},
 	{"ins", "INSERT INTO t (id, a, s) VALUES (?, ?, ?)", []string{"int", "int", "str"}, true},
 	// no column list / SELECT *: what the statement means follows the table's current columns
 	{"ins-nocols", "INSERT INTO t VALUES (?, ?, ?)", []string{"int", "int", "str"}, true},
